@@ -94,6 +94,8 @@ def check_ladder(case, ctx):
         ctx.evaluated()
         return
     orders = E.pcgrad_orders(rec0, m) if name == "PCGrad" else None
+    if rec0["randperm"]:
+        ctx.count("randperm_recorder_hits")
     g0 = E.guard(desc, J, dname, orders=orders)
     if name == "GradDrop" and rec0["rand"] and not E.graddrop_margin_ok(J, rec0["rand"][0].double().numpy(), dname):
         g0 = "graddrop_draw_at_threshold"
@@ -332,3 +334,9 @@ def config_unchecked_input(v):
 
 
 CLASSIFIERS = {"imtlg_absolute_threshold": imtlg_absolute_threshold, "config_unchecked_input": config_unchecked_input}
+
+
+def waivers(counters):
+    if counters.get("randperm_recorder_hits", 0) == 0:  # PCGrad judged for m <= 4 only (all-orders guard): its quota is waived
+        return {"ladder_judged:PCGrad"}
+    return set()
